@@ -109,7 +109,7 @@ pub fn c05(ctx: &Ctx) -> Report {
         runs.push(SliceRun { slice: s, depth: ctx.tier.pick(7, 9) });
     }
     let req = ["timed out", "cancelled by cancel()", "completed after cancel_retransmissions()", "response delivered", "id re-sent after completion", "duplicate send refused", "response after timeout dropped", "two requests due at one poll, non-default order taken"];
-    run_slices(ctx, runs, &req, "all call histories up to the depth over {send (2 shapes, duplicate ids), send indication, poll at now/wake/wake+700ms x all map-iteration orders, responses (unsigned, SHA-1 under R1/R2) for live, completed and unknown ids, incoming request with a live id, cancel, cancel_retransmissions, configure (1ms,0,0)/(7ms,3,0), set remote credentials}, <= 3 live, <= 4 sends, UDP and TCP; from every unique state a drain to completion; plus single-transaction schedules to completion with one of {response, error response from another source, response for an unknown id, duplicate send, incoming request / indication with the same id, indication sent, cancel, cancel_retransmissions} at every step index x 2 poll patterns x 6 base configurations (all in thorough); distinct_nontrivial = unique states", Some(crate::agent::schedule::completion_sweep(ctx)))
+    run_slices(ctx, runs, &req, "all call histories up to the depth over {send (2 shapes, duplicate ids), send indication, poll at now/wake/wake+700ms x all map-iteration orders, responses (unsigned, SHA-1 under R1/R2) for live, completed and unknown ids, incoming request with a live id, cancel, cancel_retransmissions, configure (1ms,0,0)/(7ms,3,0), set remote credentials}, <= 3 live, <= 4 sends, UDP and TCP; from every unique state a drain to completion; plus single-transaction schedules to completion with one of {response, error response from another source, response for an unknown id, duplicate send, incoming request / indication with the same id, indication sent, cancel, cancel_retransmissions} at every step index x 2 poll patterns x 6 base configurations (all in thorough); distinct_nontrivial = unique states", Some(crate::agent::schedule::completion_sweep(ctx).merge(crate::agent::scale::sweep("C05", ctx.tier == Tier::Thorough))))
 }
 
 pub fn c06(ctx: &Ctx) -> Report {
@@ -127,7 +127,7 @@ pub fn c06(ctx: &Ctx) -> Report {
         runs.push(SliceRun { slice: s, depth: ctx.tier.pick(7, 9) });
     }
     let req = ["timed out after the full retransmission schedule", "two requests due at one poll, non-default order taken", "WaitUntil answered with three requests live", "reconfiguration shortened the schedule below the transmissions made", "completed after cancel_retransmissions()"];
-    run_slices(ctx, runs, &req, "(a) single-transaction schedule sweep to completion: rto {1,2,499,500,1000,60000} x retransmits 0..=8 x last {0,1,8000,60000} + named configurations + default, UDP and TCP, every poll pattern {exact, early-then-exact, late 1 ms, late half interval} per wake-up (exhaustive up to 6 wake-ups, <= 2 non-exact above), reconfiguration / cancel_retransmissions / cancel at every step index; (b) state space with up to 3 concurrent transactions: send, ticks 1/250 ms, six poll timings x all orders, five configurations, cancel_retransmissions, one plain response", Some(sweep))
+    run_slices(ctx, runs, &req, "(a) single-transaction schedule sweep to completion: rto {1,2,499,500,1000,60000} x retransmits 0..=8 x last {0,1,8000,60000} + named configurations + default, UDP and TCP, every poll pattern {exact, early-then-exact, late 1 ms, late half interval} per wake-up (exhaustive up to 6 wake-ups, <= 2 non-exact above), reconfiguration / cancel_retransmissions / cancel at every step index; (b) state space with up to 3 concurrent transactions: send, ticks 1/250 ms, six poll timings x all orders, five configurations, cancel_retransmissions, one plain response; (c) long histories with 1..=300 concurrent requests under a mix of configurations (agent/scale.rs)", Some(sweep.merge(crate::agent::scale::sweep("C06", ctx.tier == Tier::Thorough))))
 }
 
 pub fn c07(ctx: &Ctx) -> Report {
@@ -179,7 +179,7 @@ pub fn c15(ctx: &Ctx) -> Report {
         runs.push(SliceRun { slice: s, depth: ctx.tier.pick(8, 11) });
     }
     let req = ["response delivered", "peer other than a destination validated by an incoming request"];
-    run_slices(ctx, runs, &req, "all histories up to the depth over {send to P1/P2/P3, send indication, incoming request/indication from four sources, responses (valid, wrong key, unsigned, unknown id) from eight sources including non-destinations, addresses differing only in port or only in IP, the IPv4-mapped IPv6 form of a destination and one link-local address under two scope ids, set remote credentials, poll}; after every step is_validated_peer for all eight addresses vs the reference set", None)
+    run_slices(ctx, runs, &req, "all histories up to the depth over {send to P1/P2/P3, send indication, incoming request/indication from four sources, responses (valid, wrong key, unsigned, unknown id) from eight sources including non-destinations, addresses differing only in port or only in IP, the IPv4-mapped IPv6 form of a destination and one link-local address under two scope ids, set remote credentials, poll}; after every step is_validated_peer for all eight addresses vs the reference set", Some(crate::agent::scale::sweep("C15", ctx.tier == Tier::Thorough)))
 }
 
 pub fn c18(ctx: &Ctx) -> Report {
@@ -187,7 +187,7 @@ pub fn c18(ctx: &Ctx) -> Report {
     for tcp in [false, true] {
         let mut s = base_slice("transmissions", "C18", tcp);
         s.send = vec![(0, Seal::None, 0), (1, Seal::Sha1, 1)];
-        s.send_other = vec![(1, 0), (2, 1), (3, 2)];
+        s.send_other = vec![(1, 0), (2, 1), (3, 2), (crate::agent::DATA_KIND, 1)];
         s.poll_whens = vec![When::Wake, When::WakePlus700];
         s.configs = vec![1, 4];
         s.resp = vec![(2, Auth::Sha1(2), 0)];
@@ -196,7 +196,7 @@ pub fn c18(ctx: &Ctx) -> Report {
         runs.push(SliceRun { slice: s, depth: ctx.tier.pick(8, 11) });
     }
     let req = ["timed out", "two requests due at one poll, non-default order taken"];
-    run_slices(ctx, runs, &req, "all histories up to the depth over {send with two payload shapes to P1/P2, send indication / success / error response, poll at wake / wake+700ms x all orders, configure (7ms,3,0) / (60s,8,60s), one dropped response}, UDP and TCP, drain from every state so that every retransmission of every schedule position is inspected: bytes = the harness' own serialisation, from = local, to = destination, transport, peer_address; plus single-transaction schedules to completion with a reconfiguration (five configurations), cancel_retransmissions or a dropped response at every step index", Some(crate::agent::schedule::transmission_sweep(ctx)))
+    run_slices(ctx, runs, &req, "all histories up to the depth over {send with two payload shapes to P1/P2, send indication / success / error response, poll at wake / wake+700ms x all orders, configure (7ms,3,0) / (60s,8,60s), one dropped response}, UDP and TCP, drain from every state so that every retransmission of every schedule position is inspected: bytes = the harness' own serialisation, from = local, to = destination, transport, peer_address; plus single-transaction schedules to completion with a reconfiguration (five configurations), cancel_retransmissions or a dropped response at every step index", Some(crate::agent::schedule::transmission_sweep(ctx).merge(crate::agent::scale::sweep("C18", ctx.tier == Tier::Thorough))))
 }
 
 pub fn c20(ctx: &Ctx) -> Report {
@@ -208,7 +208,7 @@ pub fn c20(ctx: &Ctx) -> Report {
     for tcp in [false, true] {
         let mut s = base_slice("purity", "C20", tcp);
         s.send = vec![(0, Seal::None, 0), (1, Seal::Sha1, 1)];
-        s.send_other = vec![(1, 0)];
+        s.send_other = vec![(1, 0), (crate::agent::DATA_KIND, 2)];
         s.poll_whens = vec![When::Now, When::Wake, When::WakePlus700];
         s.ticks = vec![250];
         s.resp = vec![(2, Auth::None, 0), (2, Auth::Sha1(1), 1)];
@@ -225,5 +225,5 @@ pub fn c20(ctx: &Ctx) -> Report {
         runs.push(SliceRun { slice: s, depth: ctx.tier.pick(5, 7) });
     }
     let req = ["response delivered", "timed out"];
-    run_slices(ctx, runs, &req, "before the exploration unrelated agents are driven on the main thread and every pool thread (the universe's ids / peers / credential names in other hands, every named timing configuration offset by 0.4 / 0.5 / 0.9 ms and driven to its time-out); a breach of the reference model that a pristine child process does not reproduce on the same history is a C20 violation; every unique state's history of the union slice is replayed on a fresh thread that never ran an agent (reference) and then, on a second fresh thread in this order, (1) with the time base shifted by 10^9 ms, 1 day and 1 ms, (2) unchanged after those later histories, (3) interleaved step by step with an unrelated agent on the other transport running an hour ahead, (4) with the time base at the wall clock and an hour before it, and (5) with the agent handed to another thread half way (that thread drove an unrelated agent an hour ahead before); observations (with instants relative to the base) must be identical", None)
+    run_slices(ctx, runs, &req, "before the exploration unrelated agents are driven on the main thread and every pool thread (the universe's ids / peers / credential names in other hands, every named timing configuration offset by 0.4 / 0.5 / 0.9 ms and driven to its time-out); a breach of the reference model that a pristine child process does not reproduce on the same history is a C20 violation; every unique state's history of the union slice is replayed on a fresh thread that never ran an agent (reference) and then, on a second fresh thread in this order, (1) with the time base shifted by 10^9 ms, 1 day and 1 ms, (2) unchanged after those later histories, (3) interleaved step by step with an unrelated agent on the other transport running an hour ahead, (4) with the time base at the wall clock and an hour before it, and (5) with the agent handed to another thread half way (that thread drove an unrelated agent an hour ahead before); observations (with instants relative to the base) must be identical", Some(crate::agent::scale::sweep("C20", ctx.tier == Tier::Thorough)))
 }
